@@ -48,7 +48,7 @@ def gen_ops(rng, k, depth):
 class C06(Prop):
     id = 'C06'
     extracted = True      # generator expressions / islice over chain.from_iterable regenerated from the current source (Extracted/EquivC06.lean)
-    quick_cases = 2500
+    quick_cases = 6000
     thorough_cases = 40000
     quick_budget_s = 45
     rule = ('element-wise pipelines (map / filter / flatMap / mapValues / flatMapValues / keyBy, depth 1..4) over the function '
